@@ -79,14 +79,14 @@ func (p *Auth) Unpack(buf []byte) error {
 	}
 
 	p.Reason = buf[0]
-	methodLen := buf[1]
+	methodEnd := 2 + int(buf[1])
 
-	if len(buf) < int(2+methodLen) {
-		return fmt.Errorf("bad AUTH packet length: expected >=%d, got %d", 2+methodLen, len(buf))
+	if len(buf) < methodEnd {
+		return fmt.Errorf("bad AUTH packet length: expected >=%d, got %d", methodEnd, len(buf))
 	}
 
-	p.Method = string(buf[2 : 2+methodLen])
-	p.Data = buf[2+methodLen:]
+	p.Method = string(buf[2:methodEnd])
+	p.Data = buf[methodEnd:]
 
 	return nil
 }
